@@ -616,9 +616,17 @@ func ruleT9(rule string, funcs ...[2]string) func(*Ctx) {
 		all := postingAmountPaths(c.P)
 		c.census(rule, "amount-bearing access paths of ast.Posting (from the type definitions)", len(all), 3)
 		for _, fq := range funcs {
-			fd := c.P.FuncDecl(fq[0], fq[1])
+			var fd *ast.FuncDecl
+			switch fq[1] {
+			case "checkUndeclaredCommodities":
+				fd = undeclaredCommodityCheck(c.P)
+			case "findCommodityReferences":
+				fd = commodityReferenceCollector(c.P)
+			default:
+				fd = c.P.FuncDecl(fq[0], fq[1])
+			}
 			if fd == nil {
-				c.undecided(rule, fq[0]+"."+fq[1], "anchor", token.NoPos, "function not found (renamed or removed): commodity-site coverage cannot be decided")
+				c.undecided(rule, fq[0]+"."+fq[1], "anchor", token.NoPos, "function not found: commodity-site coverage cannot be decided")
 				continue
 			}
 			vis := commodityPathsVisited(c.P, fd)
